@@ -364,6 +364,8 @@ def check_case(ctx, case):
         if foreign_types(r2[1]['values']):
             return res.violate('inverse', '$decode leaves non-normalized Go types %s in the tree' % foreign_types(r2[1]['values']), value=val, text=txt)
         for k, of in ((2, 'json'), (3, 'yaml'), (4, 'toml')):
+            if of == 'yaml' and any(BIGHEX.match(x) and overflows(x) for x in strings_of(val)):
+                continue        # known finding C05-yaml-overflowing-hex-lookalike-unquoted
             if r2[k]['err'] is not None:
                 if of == 'toml':
                     continue
